@@ -12,7 +12,7 @@ import ast
 import random
 import struct
 
-from pyvc.spec import Spec
+from pyvc.spec import Custom, Spec
 import z3
 
 from pyvc.vals import Unsupported, OpaqueV, IntV, BoolV, SeqV, NONE, USort
@@ -191,8 +191,59 @@ def repeat_specs():
     return [loop, term, pre, head]
 
 
+def cycle_state_fresh(repo):
+    """Per-cycle state of dfa_base.delegate, decided on its AST: every local the cycle loop reads is either loop-invariant bookkeeping or (re)assigned at
+    the top level of the loop body, from values of this cycle, before its first use - nothing recorded in one repeat cycle is carried into the next
+    (the no-progress crumbs `seen`, the `done` flag)."""
+    import ast
+    mod, cls, fdef = repo.find_function(F, 'dfa_base.delegate')
+    loops = [n for n in ast.walk(fdef) if isinstance(n, ast.While) and ast.unparse(n.test) == 'self.loop() and (not stasis)']
+    if len(loops) != 1:
+        raise Unsupported('stale contract: dfa_base.delegate has no `while self.loop() and not stasis:` loop')
+    loop = loops[0]
+    out = []
+    for name in ('seen', 'done'):
+        uses = [(k, st) for k, st in enumerate(loop.body) if any(isinstance(x, ast.Name) and x.id == name for x in ast.walk(st))]
+        if not uses:
+            raise Unsupported('stale contract: the cycle loop does not use `%s`' % name)
+        first = uses[0][1]
+        fresh_ = (isinstance(first, ast.Assign) and len(first.targets) == 1 and isinstance(first.targets[0], ast.Name) and first.targets[0].id == name
+                  and not any(isinstance(x, ast.Name) and x.id == name for x in ast.walk(first.value)))
+        if isinstance(first, ast.Expr) and isinstance(first.value, ast.Call) and ast.unparse(first.value.func) == name + '.clear' and not first.value.args:
+            fresh_ = True                      # emptied in place: as fresh as a new one
+        v = z3.Int('fresh_per_cycle_' + name)
+        out.append(('`%s` is assigned afresh in every cycle before it is used' % name, [v == (1 if fresh_ else 0)], v == 1))
+    return out
+
+
+def replay_optional_records(model, obligation):
+    """a repeated record that may be empty: every cycle runs, whether or not it consumed a symbol"""
+    import cpppo
+    from cpppo.server import enip
+    for k in range(0, 6):
+        for present in range(0, k + 1):
+            ticks = []
+
+            def tick(**kw):
+                ticks.append(1)
+                return True
+            opt = cpppo.state('option', terminal=True)
+            opt[b'+'[0]] = cpppo.state_drop('present', alphabet=cpppo.type_bytes_iter, terminal=True)
+            opt[None] = cpppo.decide('absent', predicate=tick, state=cpppo.state('none', terminal=True))
+            opts = cpppo.dfa('options', initial=opt, repeat=k)
+            opts[None] = enip.USINT(context='tail', terminal=True)
+            m = cpppo.dfa('msg', context='msg', initial=opts, terminal=True)
+            term, sent, rest, exc, data = run_machine(m, b'+' * present + b'T\x99', path=None)
+            if not (term and exc is None and present + len(ticks) == k and opts.cycle == k and rest == b'\x99'):
+                return dict(confirmed=True, function='cpppo.automata.dfa_base.delegate', input='repeat=%d of an optional marker, %d present' % (k, present),
+                            observed='terminal=%r exception=%r: the record ran %d times (cycle=%r), rest %r' % (term, exc, present + len(ticks), opts.cycle, rest),
+                            required='exactly %d runs, then the tail' % k)
+    return dict(confirmed=False)
+
+
 def contracts(repo):
-    return SC.peeking_specs() + SC.chaining_specs() + fragments() + repeat_specs()
+    return SC.peeking_specs() + SC.chaining_specs() + fragments() + repeat_specs() + [Custom('cycle_state_fresh', cycle_state_fresh, replay=replay_optional_records,
+            note='dataflow condition on the AST of dfa_base.delegate: the per-cycle locals are reassigned in every cycle before use')]
 
 
 # ------------------------------------------------------------------------------------------------ bounded tier
